@@ -279,6 +279,13 @@ func (s *muxerStream) hasPart(segmentID uint64, partID uint64) bool {
 		}
 	} else {
 		for _, sop := range s.segments {
+			// a gap has no Partial Segments: any Part Index is past its end
+			if gap, ok := sop.(*muxerGap); ok && segmentID == gap.id {
+				segmentID++
+				partID = 0
+				continue
+			}
+
 			if seg, ok := sop.(*muxerSegmentFMP4); ok && segmentID == seg.id {
 				// If the Client requests a Part Index greater than that of the final
 				// Partial Segment of the Parent Segment, the Server MUST treat the
@@ -793,6 +800,7 @@ func (s *muxerStream) rotateSegments(
 	if s.variant == MuxerVariantLowLatency && len(s.segments) == 0 {
 		for i := 0; i < 7; i++ {
 			s.segments = append(s.segments, &muxerGap{
+				id:       uint64(i),
 				duration: segment.getDuration(),
 			})
 		}
